@@ -106,10 +106,10 @@ Section P.
   Theorem reply_roundtrip (dec : N -> option N) c i n :
     (forall r p, enc r = Some p -> dec p = Some r) ->
     In (PPublish n) (fst (on_processed c i)) ->
-    reply_of dec n = ROwn (p_res i) (p_err i) (p_nid i).
+    reply_of (unm_json dec) n = ROwn (p_res i) (p_err i) (p_nid i).
   Proof.
     intros Hrt H. destruct (reply_content c i n H) as [_ [H2 [H3 [H4 [H5 _]]]]].
-    unfold reply_of. rewrite (Hrt _ _ H3), H4, H5, H2. destruct (p_err i); reflexivity.
+    unfold reply_of, unm_json. rewrite (Hrt _ _ H3), H4, H5, H2. destruct (p_err i); reflexivity.
   Qed.
 
   (** the model passes the acceptor that judges implementation deliveries *)
